@@ -108,17 +108,16 @@ func c12Set(ctx *core.Ctx, i int, fs gen.FileSet, thorough bool) {
 }
 
 func c12Run(ctx *core.Ctx) {
-	for i, fs := range mergeSets(ctx.Thorough()) {
-		if !ctx.Mine(i) {
-			continue
-		}
+	capped := false
+	forMergeSets(ctx.Thorough(), func(i int) bool { return ctx.Mine(i) && !capped }, func(i int, fs gen.FileSet) {
 		if ctx.Expired() {
 			ctx.Cap("wall-clock cap: not all file sets merged")
+			capped = true
 			return
 		}
 		ctx.Eval(1)
 		c12Set(ctx, i, fs, ctx.Thorough())
-	}
+	})
 }
 
 func init() {
